@@ -27,6 +27,31 @@ def id_of(b):
     a, z = struct.unpack("<QQ", b)
     return a if z == 0 and a < 2000000000 else b.hex()
 
+# every key command registered in the text dispatch tables (server/protocol.go TextServerProtocol.FindHandler and
+# server/transparency.go TransparencyTextServerProtocol.FindHandler), beside LOCK / UNLOCK / PUSH.  The CLASS of a command
+# (does it change engine state on a leader?) is data of the specification (spec/Forward.tla, spec/mon/MonForward.tla); here
+# only the wire form: arguments after the key, and the RedisCmds command code (spec/RedisCmds.tla) of the form sent.
+VALUE_COMMANDS = ("SET", "SETNX", "SETEX", "PSETEX", "GETSET", "APPEND", "INCR", "INCRBY", "DECR", "DECRBY", "EXPIRE", "PEXPIRE", "EXPIREAT",
+                  "PEXPIREAT", "PERSIST", "DEL", "GET", "STRLEN", "EXISTS", "TYPE", "DUMP", "TTL", "PTTL", "KEYS", "SCAN")
+
+def decode_value(data):
+    """LockResultCommandData after its 4-byte length (type, flag, [property block], value) -> the value as the reply writers of
+    protocol/textcommand.go read it: kind none / str / num / big, bytes, number (GetIncrValue), size (GetValueSize), empty frame."""
+    if not data or len(data) < 2:
+        return {"dkind": "none", "dvb": [], "dnum": 0, "dlen": 0, "dempty": True}
+    typ, flag = data[0] & 0x3f, data[1]
+    off = 2
+    if flag & 0x10 and len(data) >= 4:
+        off = 4 + (data[2] | (data[3] << 8))
+    val = data[off:] if typ != 1 else b""
+    num = int.from_bytes((val[:8] + b"\0" * 8)[:8], "little", signed=True)
+    kind = "num" if flag & 0x01 else "str"
+    if flag & 0x06:
+        kind = "big"            # array / map values: not generated, not judged
+    if kind == "num" and abs(num) > 1000000000:
+        kind = "big"
+    return {"dkind": kind, "dvb": list(val) if kind == "str" else [], "dnum": num if abs(num) <= 1000000000 else 0, "dlen": len(val), "dempty": len(data) <= 2}
+
 def parse_result(r, data):
     """64-byte LockResultCommand (+ value frame) -> dict of all fields."""
     lc, cnt = struct.unpack_from("<HH", r, 54)
@@ -341,6 +366,7 @@ class Proxy(threading.Thread):
             rid = RIDS.get(fr[3:19])
             ev = {"e": "up_reply", "node": self.node, "up": u.uid, "rid": rid}
             ev.update(parse_result(fr, data[4:] if data else None))
+            ev.update(decode_value(data[4:] if data else None))
             self.sink.emit(ev)
             out = fr + (data or b"")
             if self.hold:
@@ -473,6 +499,32 @@ class TextConn:
             return ["GET", k16(q["key"]).hex()]
         if q["cmd"] == "D":
             return ["DEL", k16(q["key"]).hex()]
+        if q["cmd"] == "V":
+            # any registered key command of the text protocol: q = {name, key, val, num}
+            name, key = q["name"], k16(q["key"]).hex()
+            if name not in VALUE_COMMANDS:
+                raise InfraError("unknown text command " + str(q))
+            if name in ("SETNX", "GETSET", "APPEND", "SET"):
+                return [name, key, q["val"]]
+            if name in ("SETEX", "PSETEX"):
+                return [name, key, str(q["num"]), q["val"]]
+            if name in ("INCRBY", "DECRBY", "EXPIRE", "PEXPIRE"):
+                return [name, key, str(q["num"])]
+            if name == "EXPIREAT":
+                return [name, key, str(int(time.time()) + q["num"])]
+            if name == "PEXPIREAT":
+                return [name, key, str(int(time.time() * 1000) + q["num"])]
+            if name == "KEYS":
+                return [name, "*"]
+            if name == "SCAN":
+                return [name, "0"]
+            return [name, key]
+        if q["cmd"] == "C":
+            # connection-local setting: TIMEOUT SET n
+            return ["TIMEOUT", "SET", str(q.get("num", 0))]
+        if q["cmd"] == "P":
+            # PUSH: a LOCK that is executed without an answer of its own (the handler says OK at once)
+            return ["PUSH", k16(q["key"]).hex(), "LOCK_ID", k16(q["lid"]).hex(), "TIMEOUT", str(q["to"] | (q["tf"] << 16)), "EXPRIED", str(q["ex"] | (q["ef"] << 16))]
         raise InfraError("unknown text command " + str(q))
 
     def send(self, rid, q):
@@ -580,6 +632,29 @@ class TextConn:
             d["res"] = 0 if (kind == "int" and v == 1) else (6 if kind == "int" else -1)
             if kind == "err":
                 d["err"] = v
+        elif q.get("cmd") in ("V", "P", "C"):
+            # res: 0 = an answer (+.. / :n / $..), 8 = nil, n = "-ERR n" (the leader's result code), -1 = any other error line
+            d["res"] = 0 if kind in ("ok", "int", "str", "arr") else (8 if kind == "nil" else -1)
+            if kind == "err":
+                d["err"] = v
+                if v.startswith("ERR ") and v[4:].isdigit():
+                    d["res"] = int(v[4:])
+        # the reply as a plain key-value store would render it (spec/RedisCmds.tla: ok / int / bulk / nil; err with the code)
+        d["rk"] = {"ok": "ok", "int": "int", "str": "bulk", "nil": "nil", "err": "err"}.get(kind, "other")
+        d["ri"], d["rsb"] = 0, []
+        if kind == "int":
+            if abs(v) > 1000000000:
+                d["rk"] = "bigint"
+            else:
+                d["ri"] = v
+        elif kind == "str":
+            d["rsb"] = list(v)
+        elif kind == "ok":
+            d["rsb"] = list(v.encode())
+        elif kind == "err" and v.startswith("ERR ") and v[4:].isdigit():
+            d["ri"] = int(v[4:])
+        elif kind == "err":
+            d["ri"] = -1
         return d
 
     def close(self):
@@ -791,10 +866,15 @@ class SeqRunner:
             # answered (that is the code's behaviour, judged by the monitor): they are waited for `drain` seconds; every
             # other open request is waited for much longer (the machine may be busy)
             t_short = time.time() + sc.get("drain", 1.2)
+            # (only a pipelining - binary - connection can lose a request for good: the text handler serves one request at a time and
+            #  gets the fabricated error of a broken upstream itself; an open TEXT request is waited for longer, so that a node that is
+            #  merely slow on a busy machine is not taken for one that never answers)
+            t_short_text = time.time() + max(sc.get("drain", 1.2), 5.0)
             t_long = time.time() + 12.0
             while self.pending:
                 now = time.time()
-                if now > t_long or (now > t_short and self.pending <= self.maybe_lost):
+                text_open = any(self.conns[c].proto == "text" for c, _ in self.pending)
+                if now > t_long or (now > (t_short_text if text_open else t_short) and self.pending <= self.maybe_lost):
                     break
                 if not self.poll_all(0.02):
                     time.sleep(0.005)
@@ -852,7 +932,8 @@ class SeqRunner:
             ev = {"e": "req", "id": rid, "conn": conn.cid, "node": conn.node, "where": conn.where, "proto": conn.proto, "cmd": q["cmd"], "db": 0,
                   "key": q["key"], "lid": 0 if q.get("nolid") else q.get("lid", 0), "flag": q.get("flag", 0), "tf": q.get("tf", 0), "to": q.get("to", 0), "ef": q.get("ef", 0),
                   "ex": q.get("ex", 0), "cnt": q.get("cnt", 0), "rc": q.get("rc", 0), "data": (q.get("data") or b"").hex(), "val": q.get("val", ""),
-                  "first": conn.proto == "text" and conn.nsent == 0, "role": role[conn.where], "tap": True, "ts": int(time.time())}
+                  "first": conn.proto == "text" and conn.nsent == 0, "role": role[conn.where], "tap": True, "ts": int(time.time()),
+                  "name": q.get("name", ""), "num": q.get("num", 0), "form": q.get("form", "")}
             if conn.proto == "text":
                 ev["len"] = len(resp_encode(conn.text_args(q)))
             self.emit(ev)
@@ -867,6 +948,16 @@ class SeqRunner:
             end = time.time() + wait
             while (conn.cid, rid) in self.pending and time.time() < end:
                 self.record_replies(conn, conn.poll(max(0.0, end - time.time())))
+            if q["cmd"] == "P" and conn.where == "N" and self.last_res.get(rid) == 0:
+                # PUSH is acknowledged as soon as the command is on its way: the proxy's record of the forwarded frame may lag
+                # behind the client's OK - it is waited for (1 s), so that the trace shows whether there was one
+                end = time.time() + 1.0
+                while time.time() < end:
+                    with self.sink.lock:
+                        seen = any(e["e"] == "up_req" and e.get("key") == q["key"] and e.get("lid") == q["lid"] for e in self.sink.ev)
+                    if seen:
+                        break
+                    time.sleep(0.002)
             if q["cmd"] == "U":
                 # a waiter woken by this unlock: its reply is read before the next request goes out (up to 150 ms)
                 waiters = [(c, r) for c, r in self.pending if self.conns[c].open.get(r, {}).get("key") == q["key"]] if self.last_res.get(rid) == 0 else []
@@ -1044,14 +1135,26 @@ class SeqRunner:
         self.emit({"e": "snap", "node": "L", "lead": True, "caught": True, "ts": ts_snap, "keys": ls})
         self.emit({"e": "snap", "node": self.fname, "lead": role["N"] == "leader", "caught": caught, "ts": ts_snap, "keys": fs})
         if role["N"] == "follower" and sc.get("vkeys"):
-            # value registers read back through both nodes (text GET is served from the node's own state)
-            for nm in ("L", self.fname):
+            # value registers read back through both nodes (text GET is served from the node's own state).  The leader pushes a
+            # record to its followers AFTER it answered the client: as with the holds above, the two nodes are read again until
+            # they agree or 5 s have passed (a difference that stays is reported)
+            def read_vals(nm):
                 a = self.cl.admin(nm)
                 vals = []
                 for k in sc["vkeys"]:
                     v = a.cmd("GET", k16(k).hex())
-                    vals.append({"key": k, "val": v.decode(errors="replace") if isinstance(v, bytes) else "", "nil": v is None})
-                self.emit({"e": "vals", "node": nm, "lead": nm == "L", "caught": caught, "vals": vals})
+                    vals.append({"key": k, "val": v.decode(errors="replace") if isinstance(v, bytes) else (str(v) if isinstance(v, int) else ""), "nil": v is None,
+                                 "rk": "bulk" if isinstance(v, bytes) else ("int" if isinstance(v, int) and abs(v) <= 1000000000 else ("nil" if v is None else "other")),
+                                 "ri": v if isinstance(v, int) and abs(v) <= 1000000000 else 0, "rsb": list(v) if isinstance(v, bytes) else []})
+                return vals
+            lv, fv = read_vals("L"), read_vals(self.fname)
+            end = time.time() + 5.0
+            while lv != fv and time.time() < end:
+                time.sleep(0.05)
+                caught = self.cl.wait_caughtup(self.fname, 2)
+                lv, fv = read_vals("L"), read_vals(self.fname)
+            self.emit({"e": "vals", "node": "L", "lead": True, "caught": caught, "vals": lv})
+            self.emit({"e": "vals", "node": self.fname, "lead": False, "caught": caught, "vals": fv})
 
 # --------------------------------------------------------------------------------------------------- replica set (leader -> follower)
 
